@@ -30,6 +30,7 @@ void run(ReplayCtx& ctx, const std::string& oname) {
   } else {
     if (ids != "gap") run1<O, IdSeq>(ctx, oname);
     if (ids != "seq") run1<O, IdGap>(ctx, oname);
+    if (ids != "seq" && ids != "gap") run1<O, IdMix>(ctx, oname);
   }
 }
 
